@@ -90,6 +90,11 @@ func (d *deferStreamLabelsVisitor) EnterDirective(ref int) {
 	labelString := d.operation.StringValueContentString(labelValue.Ref)
 
 	if previous, exists := d.seenLabels[labelString]; exists {
+		if previous.directiveRef == ref {
+			// the walker revisits a selection set after a sibling node was removed
+			// (e.g. by @skip/@include during prevalidation): same directive, not a duplicate
+			return
+		}
 		previousDirectiveName := d.operation.DirectiveNameBytes(previous.directiveRef)
 		d.StopWithExternalErr(operationreport.ErrDeferStreamDirectiveLabelMustBeUnique(
 			directiveName,
